@@ -105,7 +105,8 @@ def profiles_for(pid, tier):
         "C09": [("reader", dict(three, _mode={"reader": True}, w_sweep=4, w_restart=1, usage=True), N(80, 600)),
                 ("reader-nousage", dict(three, _mode={"reader": True}, w_sweep=4, usage=False), N(60, 400))],
         "C10": [("crash", dict(three, w_crash=6, w_sweep=3, quiesce=True), N(160, 1500)),
-                ("crash-usage", dict(base, w_crash=8, w_sweep=4, quiesce=True, usage=True), N(100, 1000))],
+                ("crash-usage", dict(base, w_crash=8, w_sweep=4, quiesce=True, usage=True), N(100, 1000)),
+                ("resend", dict(three, n_ops=30, w_sweep=1, w_restart=1), N(60, 500))],
         "C11": [("restart", dict(three, w_restart=5, w_sweep=5, w_reconnect=8), N(160, 1500))],
         "C12": [("timer", dict(three, _mode={"timer": True}, timer=True, w_sweep=6, w_crash=0, w_reconnect=6, w_bigjump=2), N(160, 1500)),
                 ("direct", dict(three, w_sweep=8, w_bigjump=3), N(100, 800))],
@@ -174,8 +175,11 @@ def info():
 
 def run_oracles(pid, tr, meta):
     import oracles as O
-    tr.history = [st.op for st in tr.steps]
+    import metamorphic as M
     f = []
+    rng = random.Random(meta.get("seed", 0) ^ 0x5eed)
+    thorough = meta.get("tier") == "thorough"
+    H = meta["_history"]
     if pid == "C01":
         f += O.check_C01(tr)
     elif pid == "C02":
@@ -186,6 +190,12 @@ def run_oracles(pid, tr, meta):
         f += O.check_C04(tr, info()["alloc"])
     elif pid == "C05":
         f += O.check_C05(tr)
+    elif pid == "C06":
+        f += M.check_C06(tr, H, meta, rng)
+    elif pid == "C11":
+        f += M.check_C11(tr, H, meta, rng)
+    elif pid == "C14":
+        f += M.check_C14(tr, H, meta, rng, thorough)
     elif pid == "C07":
         f += O.check_C07(tr)
     elif pid == "C08":
@@ -198,6 +208,8 @@ def run_oracles(pid, tr, meta):
             f += [x for x in O.check_C13(tr, info()["expirationTicks"]) if "empty" in x.clause]
             for x in f:
                 x.prop = "C10"
+        if not tr.has_crash or meta.get("resend"):
+            f += M.check_C10_resend(tr, H, meta, rng, thorough)
     elif pid == "C12":
         f += O.check_C12(tr, info()["expirationTicks"])
     elif pid == "C13":
@@ -210,6 +222,7 @@ def run_oracles(pid, tr, meta):
         f += O.check_C17(tr, welcome=json.loads(proto.welcome_json(tr.cfg)))
     elif pid == "C18":
         f += O.check_C18_list(tr)
+        f += M.check_C18(tr, H, meta, rng, thorough)
     return f
 
 
